@@ -164,7 +164,7 @@ def loop_var_leak(ctx, rep, rule: str, funcs: list[str]) -> None:
         rep.floor(rule, f"{short(q)} loops", n_loops, 1)
 
 
-def per_group_fresh(ctx, rep, rule: str, funcs: list[str]) -> None:
+def per_group_fresh(ctx, rep, rule: str, funcs: list[str], floor: int | None = None) -> None:
     """What a per-group / per-block loop stores into optimizer state must be created inside that iteration: a mutable object
     (tensor, list, preconditioner) created once before the loop and stored by every iteration is shared — an in-place
     update for one group would change every group's copy (e.g. one step counter advanced once per group per step)."""
@@ -203,4 +203,23 @@ def per_group_fresh(ctx, rep, rule: str, funcs: list[str]) -> None:
                             shared.append((nm.id, outside[0]))
                 n += 1
                 rep.ob(rule, f"per-iteration-fresh:{short(q)}:{ast.unparse(st.targets[0])[:50]}", not shared, fi.loc(st), f"`{ast.unparse(st)[:90]}` inside the loop stores an object created in this iteration" + (f"; `{shared[0][0]}` is created once before the loop (line {shared[0][1].lineno}) and stored by every iteration: all groups share one mutable object" if shared else ""), sample=(n % 4 == 0))
-    rep.floor(rule, "subscript stores inside per-group loops", n, 5)
+    rep.floor(rule, "subscript stores inside per-group loops", n, floor if floor is not None else min(5, len(funcs)))
+
+
+def hyperparameters_from_group(ctx, rep, rule: str) -> None:
+    """After construction every hyperparameter is read from the parameter group it applies to (`group[KEY]`): the
+    constructor-level `self.defaults` are what a group starts from, not what it uses — a group that overrides a value
+    (its own preconditioner config, tolerance, betas ...) must get its own."""
+    repo = ctx.repo
+    ds = repo.cls(DS)
+    reads = []
+    n = 0
+    for fi in ds.methods.values():
+        n += 1
+        if fi.name == "__init__":
+            continue
+        for x in ast.walk(fi.node):
+            if isinstance(x, ast.Attribute) and x.attr == "defaults" and isinstance(x.value, ast.Name) and x.value.id == "self" and isinstance(x.ctx, ast.Load):
+                reads.append((fi, x))
+    rep.floor(rule, "DistributedShampoo methods scanned for self.defaults", n, 20)
+    rep.ob(rule, "hyperparameters-read-from-the-group", not reads, reads[0][0].loc(reads[0][1]) if reads else ds.module.relpath, "no method of DistributedShampoo other than __init__ reads `self.defaults`" + (f"; {short(reads[0][0].qual)} does: a parameter group overriding that value is given the constructor-level one" if reads else ""), sample=True)
